@@ -97,6 +97,7 @@ def collect():
     B('http10', C.HTTP_1_0)
     B('http11', C.HTTP_1_1)
     N('defaultHttpPort', C.DEFAULT_HTTP_PORT)
+    N('defaultHttpsPort', C.DEFAULT_HTTPS_PORT); B('httpProto', C.HTTP_PROTO); B('httpsProto', C.HTTPS_PROTO)   # C12
     N('defaultPort', C.DEFAULT_PORT)
     N('defaultBufferSize', C.DEFAULT_BUFFER_SIZE)
     N('defaultMaxSendSize', C.DEFAULT_MAX_SEND_SIZE)
@@ -117,9 +118,18 @@ def collect():
     for name in (
         'PROXY_TUNNEL_ESTABLISHED_RESPONSE_PKT', 'PROXY_AUTH_FAILED_RESPONSE_PKT',
         'NOT_FOUND_RESPONSE_PKT', 'NOT_IMPLEMENTED_RESPONSE_PKT', 'BAD_GATEWAY_RESPONSE_PKT',
-        'BAD_REQUEST_RESPONSE_PKT',
+        'BAD_REQUEST_RESPONSE_PKT', 'PROXY_TUNNEL_UNSUPPORTED_SCHEME',
     ):
         B('pkt_' + name, bytes(getattr(R, name)))
+    # C06: response builders' constants, handler protocol numbering
+    B('proxyAgentHeaderKey', C.PROXY_AGENT_HEADER_KEY)
+    N('defaultMinCompressionLength', C.DEFAULT_MIN_COMPRESSION_LENGTH)
+    from proxy.http.protocols import httpProtocols as _HP
+    for k in ('UNKNOWN', 'WEB_SERVER', 'HTTP_PROXY', 'SOCKS_PROXY'):
+        N('proto_' + k, getattr(_HP, k))
+    from proxy.http.codes import httpStatusCodes as _SC
+    for k in ('OK', 'SEE_OTHER', 'PERMANENT_REDIRECT', 'BAD_REQUEST', 'SWITCHING_PROTOCOLS'):
+        N('code_' + k, getattr(_SC, k))
     # executor cadence (milliseconds / seconds as floats in the code)
     N('selectTimeoutMs', round(C.DEFAULT_SELECTOR_SELECT_TIMEOUT * 1000))
     N('waitTimeoutMs', round(C.DEFAULT_WAIT_FOR_TASKS_TIMEOUT * 1000))
